@@ -410,6 +410,9 @@ def pick(case, name, state):
         _, _, i, k = min(cands)
         return i, k
     v, h = state[0]
+    if v == "" and case["anonymous"]:
+        cands = [(STRENGTH[k.split(":")[1]], k) for i, k in m if k.startswith("g:")]
+        return (0, min(cands)[1]) if cands else (None, "base")
     if v == "":
         return None, "base" + ("(hidden)" if h else "")
     if v == "*local*":
@@ -429,12 +432,15 @@ def classify(case, name, lstate, wstate):
     the same kind of section; a global-versus-local disagreement is reported by wildcard class."""
     anon = ":anonymous" if case["anonymous"] else ""
     if any(s["base"] == name for s in case["symvers"]):
-        # a symbol that carries an explicit version from .symver
-        def st(x):
-            return "local" if not x else "exported"
-        if st(lstate) != st(wstate):
-            return f"symver-symbol:ld={st(lstate)}:wild={st(wstate)}"
-        return "symver-symbol:versions-differ"
+        # a symbol that carries explicit versions from .symver: compare version by version
+        lv = set(v for v, h in (lstate or []))
+        wv = set(v for v, h in (wstate or []))
+        parts = []
+        if lv - wv:
+            parts.append("ld-exports-version-wild-hides")
+        if wv - lv:
+            parts.append("wild-exports-version-ld-hides")
+        return "symver-symbol:" + ("+".join(parts) or "hidden-bit-differs")
     li, lk = pick(case, name, lstate)
     wi, wk = pick(case, name, wstate)
     if li is None or wi is None:
@@ -663,6 +669,12 @@ def pinned_cases():
         ("pin-global-glob-vs-later-local-glob", P(nodes=[N("V1", [("c", "glob", "foo*")], []), N("V2", [], [("c", "glob", "foo?")])])),
         ("pin-nostar-glob-vs-later-star-glob", P(nodes=[N("V1", [("c", "glob", "foo?")], []), N("V2", [("c", "glob", "foo*")], [])])),
         ("pin-space-before-colon", P(layout="sp-colon", nodes=[N("V1", [("c", "exact", "foo1")], [("c", "star", "*")])])),
+        ("pin-symver-hidden-by-local-star-of-other-node", P(
+            csyms=["bar", "foo1"], symvers=[dict(impl="foo_impl_a", base="foo", node=1, default=True, remove=True)],
+            nodes=[N("V1", [("c", "exact", "bar")], [("c", "star", "*")]), N("V2", [], [], [0])])),
+        ("pin-symver-in-node-whose-local-star-matches", P(
+            csyms=["bar", "foo1"], symvers=[dict(impl="foo_impl_a", base="foo", node=0, default=True, remove=True)],
+            nodes=[N("V1", [], [("c", "star", "*")]), N("V2", [("c", "glob", "foo*")], [])])),
         ("pin-basic", P(nodes=[N("V1", [("c", "exact", "foo1")], [("c", "star", "*")]), N("V2", [("c", "exact", "bar")], [], [0])])),
     ]
 
